@@ -38,7 +38,7 @@ pub fn plan_for(property: &str, seed: u64, run: u64, miri: bool) -> HistPlan {
             knobs.max_clients = 1;
             knobs.max_text = 8;
         }
-        if run % 30_000 == 29_998 {
+        if run % 20_000 == 19_998 {
             // mega runs: a short history that starts with a sentence beyond 2^20 bytes
             knobs.mega = true;
             knobs.max_ops = 10;
